@@ -146,7 +146,7 @@ theorem c03_part_target_value {cfg : Cfg} {st0 : State} (h0 : start cfg = .ok st
         MS * ceilMs (maxPart ((rotateParts (run st0 ops) d).stream (leadStream st0)).segments o'.parts) := by
   have hg := reach_GI h0 ops
   have hvar : (run st0 ops).cfg.variant ≠ .mpegts := by rw [run_cfg h0, start_variant h0]; exact hv
-  obtain ⟨_, _, _, hL⟩ := GI_rotateParts hg hvar d
+  obtain ⟨_, _, _, hL, _⟩ := GI_rotateParts hg hvar d
   have r := rpS_some (v := (run st0 ops).cfg.variant) (fpContent (run st0 ops) (leadStream st0)) d true ho hp
   rw [hL]
   refine ⟨_, r.nextSegment, ?_⟩
